@@ -1,6 +1,7 @@
 import TinysetModel.Proofs.IterSpec
 import TinysetModel.Proofs.CfgInst
 import TinysetModel.Model.Ops
+import TinysetModel.Proofs.TinySrc
 /-! C04 — iteration yields every member exactly once and nothing else.
 `elems c r` is the abstraction every other theorem speaks about (membership = `∈ elems`); the
 theorems here say that the *iterator code* (`Model/Iter.lean`: `cursorOf`, `next`) produces exactly
@@ -42,5 +43,41 @@ theorem iter_yields_elems_u64 {r : Rp} (wf : WF cfg64 r) :
     drainFrom cfg64 r ((elems cfg64 r).length + 1) (cursorOf r) = .ok (elems cfg64 r) := drain_eq_elems cfg64_ok wf
 theorem iter_yields_elems_u32 {r : Rp} (wf : WF cfg32 r) :
     drainFrom cfg32 r ((elems cfg32 r).length + 1) (cursorOf r) = .ok (elems cfg32 r) := drain_eq_elems cfg32_ok wf
+
+/-! ### the inline step of the iterator IS the current source (`Generated/Loops.lean`, translated on every run from the
+`Stack` arm of `Inner::next` in `setu64/iter.rs` / `setu32/iter.rs`) -/
+
+/-- at every position of a cursor over an inline set of at most 7 members (`sz_left ≤ sz`), the model's `next` — about
+which `iter_yields_elems_u64` speaks — returns the value and the cursor fields the translated source returns -/
+theorem inline_step_is_the_source_u64 (t : TinyC.T) (k : Cursor) (hsz : k.sz ≤ 7) (hle : k.szLeft ≤ k.sz) :
+    next cfg64 (.stack t) k =
+      (match Gen.iter_next_stack_64 k.sz k.szLeft k.sbits k.last with
+       | (out, szLeft, sbits, last) => .ok (out, { k with szLeft := szLeft, sbits := sbits, last := last })) :=
+  iter_next_stack_64_eq t k (fun h => by rw [widths_len_64 _ hsz]; omega)
+/-- `SetU32` (at most 6 members inline; the next member is a `u32`) -/
+theorem inline_step_is_the_source_u32 (t : TinyC.T) (k : Cursor) (hsz : k.sz ≤ 6) (hle : k.szLeft ≤ k.sz)
+    (hlt : (if k.szLeft = k.sz then k.sbits % 2 ^ (TinyC.widths TinyC.codec32 k.sz).getD (k.sz - k.szLeft) 0
+            else k.last + 1 + k.sbits % 2 ^ (TinyC.widths TinyC.codec32 k.sz).getD (k.sz - k.szLeft) 0) < 2 ^ 32) :
+    next cfg32 (.stack t) k =
+      (match Gen.iter_next_stack_32 k.sz k.szLeft k.sbits k.last with
+       | (out, szLeft, sbits, last) => .ok (out, { k with szLeft := szLeft, sbits := sbits, last := last })) :=
+  iter_next_stack_32_eq t k (fun h => by rw [widths_len_32 _ hsz]; omega) hlt
+/-- the walk along a plain table (`Big` arm of `Inner::next`: `while let Some(&x) = a.get(self.index)`, skipping empty
+buckets, the placeholder standing for 0): whenever the model's `next` returns — `iter_yields_elems_u64` shows it does
+on every well-formed set — the translated source returns the same member and leaves the same cursor -/
+theorem plain_step_is_the_source_u64 (sz cap bits : Nat) (a : RH.Tbl) (hb : bits = 0 ∨ bits > 64) (k : Cursor)
+    (out : Option Nat) (k' : Cursor) (h : next cfg64 (.heap sz cap bits a) k = .ok (out, k')) :
+    Gen.iter_next_big_64 a k.bits k.index k.szLeft = (out, k'.index, k'.szLeft) ∧
+      k' = { k with index := k'.index, szLeft := k'.szLeft } :=
+  iter_next_big_64_eq sz cap bits a hb k out k' h
+theorem plain_step_is_the_source_u32 (sz cap bits : Nat) (a : RH.Tbl) (hb : bits = 0 ∨ bits > 32) (k : Cursor)
+    (hkb : k.bits < 2 ^ 32) (out : Option Nat) (k' : Cursor) (h : next cfg32 (.heap sz cap bits a) k = .ok (out, k')) :
+    Gen.iter_next_big_32 a k.bits k.index k.szLeft = (out, k'.index, k'.szLeft) ∧
+      k' = { k with index := k'.index, szLeft := k'.szLeft } :=
+  iter_next_big_32_eq sz cap bits a hb k hkb out k' h
+/-- not vacuous: a plain table with placeholder 100 holding {0, 7}: the walk skips the empty bucket and yields 0 -/
+example : Gen.iter_next_big_64 #[0, 100, 7] 100 0 2 = (some 0, 2, 1) := by decide
+/-- not vacuous: the first step over the inline set {3, 10} -/
+example : Gen.iter_next_stack_64 2 2 (3 + 2 ^ 40 * 6) 0 = (some 3, 1, 6, 3) := by decide
 
 end C04
